@@ -22,7 +22,6 @@
 #include <fcppt/bit/shift_count.hpp>
 #include <fcppt/bit/shifted_mask.hpp>
 #include <fcppt/bit/test.hpp>
-#include <fcppt/cast/enum_to_int.hpp>
 #include <fcppt/cast/truncation_check.hpp>
 #include <fcppt/enum/from_int.hpp>
 #include <fcppt/math/ceil_div.hpp>
@@ -310,11 +309,8 @@ struct wide
 // boundary lattice of a type: 0, +-1, +-2, 2^k, 2^k +- 1, -(2^k), -(2^k) +- 1, min, max, min+1, max-1
 template <typename T> std::vector<T> lattice(bool const full)
 {
+  // computed on the bit patterns (unsigned, modular) and reinterpreted as T: 2^k + d and its negation
   std::set<T> s;
-  auto add = [&s](long double const v) {
-    if (v >= static_cast<long double>(std::numeric_limits<T>::min()) && v <= static_cast<long double>(std::numeric_limits<T>::max()))
-      s.insert(static_cast<T>(v));
-  };
   using U = std::make_unsigned_t<T>;
   int const bits = static_cast<int>(sizeof(T) * 8);
   s.insert(static_cast<T>(0));
@@ -324,27 +320,16 @@ template <typename T> std::vector<T> lattice(bool const full)
   s.insert(static_cast<T>(std::numeric_limits<T>::max() - 1));
   for (int k = 0; k < bits; ++k)
   {
-    if (!full && !(k <= 2 || k == 7 || k == 8 || k == 15 || k == 16 || k >= bits - 2 || k == 30 || k == 31 || k == 32 || k == 33))
+    if (!full && !(k <= 2 || k == 7 || k == 8 || k == 15 || k == 16 || k >= bits - 2 || (k >= 30 && k <= 33)))
       continue;
     U const p = static_cast<U>(static_cast<U>(1) << k);
     for (int d = -1; d <= 1; ++d)
     {
-      U const v = static_cast<U>(p + static_cast<U>(d)); // modular, then reinterpret
-      if constexpr (std::is_signed_v<T>)
-      {
-        if (k < bits - 1 || d < 0)
-        {
-          s.insert(static_cast<T>(v));
-          if (k < bits - 1) s.insert(static_cast<T>(-static_cast<T>(v)));
-        }
-        else if (d == 0)
-          s.insert(std::numeric_limits<T>::min());
-      }
-      else
-        s.insert(static_cast<T>(v));
+      U const v = static_cast<U>(p + static_cast<U>(d));
+      s.insert(static_cast<T>(v));
+      if constexpr (std::is_signed_v<T>) s.insert(static_cast<T>(static_cast<U>(0) - v));
     }
   }
-  (void)add;
   return std::vector<T>(s.begin(), s.end());
 }
 template <typename T> T random_value(vj::Rng &rng)
@@ -425,20 +410,8 @@ template <typename D, typename S> void tc_pair(config const &cfg, vj::Rng &rng)
   }
   else
   {
-    std::vector<S> vs = operands<S>(rng, true, cfg.tier == 0 ? 64U : 2000U);
-    // the destination's boundaries as source values, where they fit
-    for (D const d : lattice<D>(true))
-    {
-      if constexpr (std::is_signed_v<D> == std::is_signed_v<S>)
-      {
-        if (sizeof(D) <= sizeof(S)) { vs.push_back(static_cast<S>(d)); vs.push_back(static_cast<S>(static_cast<S>(d) + 1)); vs.push_back(static_cast<S>(static_cast<S>(d) - 1)); }
-      }
-      else if (d >= 0 && to_z(d).mag <= to_z(std::numeric_limits<S>::max()).mag)
-      {
-        vs.push_back(static_cast<S>(d));
-        vs.push_back(static_cast<S>(static_cast<S>(d) + 1));
-      }
-    }
+    // the full lattice of S contains the boundaries (min - 1, min, max, max + 1) of every narrower type
+    std::vector<S> const vs = operands<S>(rng, true, cfg.tier == 0 ? 64U : 2000U);
     for (S const v : vs)
       wide::rec("truncation_check", tname<S>(), tname<D>(), 0, 0, to_z(v), Z{false, 0}, Z{false, 0},
                 [v] { return fcppt::cast::truncation_check<D>(v); });
@@ -454,7 +427,7 @@ template <typename S> void tc_source(config const &cfg, vj::Rng &rng)
 template <typename E, typename V> void from_int_one(config const &cfg, vj::Rng &rng)
 {
   using U = std::underlying_type_t<E>;
-  long long const n = static_cast<long long>(fcppt::cast::enum_to_int<long long>(E::fcppt_maximum)) + 1;
+  long long const n = static_cast<long long>(static_cast<U>(E::fcppt_maximum)) + 1;
   if constexpr (narrow<V>)
   {
     unary_rows<V>("from_int", tname<V>(), tname<U>(), n, lo<V>(), hi<V>(),
@@ -636,11 +609,11 @@ template <typename T> void clamp_all(config const &cfg, vj::Rng &rng)
     {
       std::set<long long> s;
       for (T const x : lattice<T>(true)) s.insert(static_cast<long long>(x));
-      if (sizeof(T) == 1) for (long long v = lo<T>(); v <= hi<T>(); v += 5) s.insert(v);
-      for (int i = 0; i < 24; ++i) s.insert(static_cast<long long>(random_value<T>(rng)));
+      if (sizeof(T) == 1) for (long long v = lo<T>(); v <= hi<T>(); v += 16) s.insert(v);
+      for (int i = 0; i < 8; ++i) s.insert(static_cast<long long>(random_value<T>(rng)));
       bounds.assign(s.begin(), s.end());
       if (sizeof(T) == 1) for (long long v = lo<T>(); v <= hi<T>(); ++v) vs.push_back(v);
-      else { vs = bounds; for (int i = 0; i < 200; ++i) vs.push_back(static_cast<long long>(random_value<T>(rng))); }
+      else { vs = bounds; for (int i = 0; i < 60; ++i) vs.push_back(static_cast<long long>(random_value<T>(rng))); }
     }
     for (long long const v : vs)
       for (long long const l : bounds)
@@ -654,7 +627,13 @@ template <typename T> void clamp_all(config const &cfg, vj::Rng &rng)
   }
   else
   {
-    std::vector<T> const ls = operands<T>(rng, false, 6U);
+    // a small boundary set cubed, then random triples
+    std::vector<T> ls{static_cast<T>(0), static_cast<T>(1), static_cast<T>(2), std::numeric_limits<T>::min(),
+                      static_cast<T>(std::numeric_limits<T>::min() + 1), std::numeric_limits<T>::max(),
+                      static_cast<T>(std::numeric_limits<T>::max() - 1), static_cast<T>(std::numeric_limits<T>::max() / 2),
+                      static_cast<T>(std::numeric_limits<T>::max() / 2 + 1)};
+    if constexpr (std::is_signed_v<T>) { ls.push_back(static_cast<T>(-1)); ls.push_back(static_cast<T>(-2)); }
+    for (int i = 0; i < (cfg.tier == 0 ? 3 : 12); ++i) ls.push_back(random_value<T>(rng));
     for (T const v : ls)
       for (T const l : ls)
         for (T const h : ls)
